@@ -197,6 +197,17 @@ def rule_z4(chk: Check, ix: Index):
     fills = [n for n in own_nodes(pk.node) if isinstance(n, ast.If) and "not self._path" in norm_stmt(n.test)
              and any("self._lines[" in norm_stmt(x) or "self._lines.setdefault(" in norm_stmt(x) for s in n.body for x in ast.walk(s)
                      if isinstance(x, (ast.stmt, ast.Call)))]
+    # ... for every token fetched in string mode: nothing but the mode decides whether a token's lines are remembered
+    chk.count("Z4-line-source")
+    extra = []
+    for n in fills:
+        t = n.test
+        conj = t.values if isinstance(t, ast.BoolOp) and isinstance(t.op, ast.And) else [t]
+        extra += [norm_stmt(c) for c in conj if norm_stmt(c) not in ("not self._path", "self._path == ''")]
+    chk.require(not extra, "Z4-line-source", "Tokenizer.peek:cache-fill-unconditional", pk.where,
+                f"in string mode the lines of some tokens are not remembered (the fill is also conditional on {extra}): two adjacent physical "
+                f"lines with the same text, or any token the extra test skips, then have no text when a syntax error is reported there, "
+                f"while file mode re-reads the file and has it")
     chk.count("Z4-line-source")
     chk.require(len(fills) == 1, "Z4-line-source", "Tokenizer.peek:cache-fill", pk.where,
                 "the per-line cache must be filled (only) in string mode")
